@@ -194,6 +194,61 @@ Proof.
   apply in_flat_map in U5. destruct U5 as (x & Hx1 & Hx2). apply in_flat_map. exists x. split; [apply F; exact Hx1 | exact Hx2].
 Qed.
 
+(* the fact the site theorem rests on: in lower_program every declaration — wherever it stands —
+   is lowered in a state whose hook table is the table of the WHOLE module *)
+Lemma hook_table_complete : forall pre d post st' out n,
+  lower_decls {| hooks := collect_hooks (pre ++ d :: post) []; structs := []; cur := None |} (pre ++ d :: post)
+    = (st', out, n) ->
+  exists st_d st_d' outd nd,
+    hooks st_d = collect_hooks (pre ++ d :: post) [] /\ cur st_d = None /\
+    lower_decl st_d d = (st_d', outd, nd) /\ incl outd out.
+Proof.
+  intros pre d post st' out n H.
+  set (st0 := {| hooks := collect_hooks (pre ++ d :: post) []; structs := []; cur := None |}) in *.
+  destruct (decls_split pre st0 d post st' out n eq_refl H) as (st_d & st_d' & outd & nd & A & B & _ & _ & E & F & _).
+  exists st_d, st_d', outd, nd. repeat split; assumption.
+Qed.
+
+Lemma collect_hooks_acc : forall ds acc T h, lookup T acc = Some h ->
+  (forall nt, In (DNewtype nt) ds -> nt_name nt <> T) -> lookup T (collect_hooks ds acc) = Some h.
+Proof.
+  induction ds as [|d r IH]; intros acc T h Hl Hn; [exact Hl|].
+  destruct d as [nt| | | |]; cbn [collect_hooks]; try (apply IH; [exact Hl | intros; apply Hn; right; assumption]).
+  destruct (select_newtype_checked_ctor nt) as [h'|]; apply IH; try (intros; apply Hn; right; assumption); try exact Hl.
+  cbn [lookup]. assert (Hne : nt_name nt <> T) by (apply Hn; left; reflexivity).
+  destruct (String.eqb T (nt_name nt)) eqn:E; [apply String.eqb_eq in E; congruence | exact Hl].
+Qed.
+
+(* a hooked newtype that is declared once is in the table, wherever its declaration stands *)
+Lemma declared_hook_in_table : forall pre nt post h,
+  select_newtype_checked_ctor nt = Some h ->
+  (forall nt', In (DNewtype nt') post -> nt_name nt' <> nt_name nt) ->
+  forall acc, lookup (nt_name nt) (collect_hooks (pre ++ DNewtype nt :: post) acc) = Some h.
+Proof.
+  induction pre as [|d r IH]; intros nt post h Hs Hu acc.
+  - cbn [app collect_hooks]. rewrite Hs. apply collect_hooks_acc; [|exact Hu].
+    cbn [lookup]. rewrite String.eqb_refl. reflexivity.
+  - cbn [app collect_hooks]. destruct d as [nt0| | | |]; try apply IH; try assumption.
+    destruct (select_newtype_checked_ctor nt0); apply IH; assumption.
+Qed.
+
+(* use before declaration: the site's declaration d stands ABOVE `type T = newtype ...` *)
+Lemma forward_reference_rewritten : forall pre d mid nt post out h ctx top a,
+  lower_program (pre ++ d :: mid ++ DNewtype nt :: post) = Some out ->
+  select_newtype_checked_ctor nt = Some h ->
+  (forall nt', In (DNewtype nt') post -> nt_name nt' <> nt_name nt) ->
+  is_uppercase (nt_name nt) = true ->
+  top_of d ctx top -> ctx <> Some (nt_name nt) -> within (site (nt_name nt) a) top ->
+  exists top' a', In top' (flat_map irdecl_exprs out) /\ iwithin (checked_ctor (nt_name nt) h a') top'.
+Proof.
+  intros pre d mid nt post out h ctx top a Hp Hs Hu Hup Ht Hc Hw.
+  eapply site_rewritten_program; try eassumption.
+  - replace (pre ++ d :: mid ++ DNewtype nt :: post) with ((pre ++ d :: mid) ++ DNewtype nt :: post)
+      by (rewrite <- app_assoc; reflexivity).
+    apply declared_hook_in_table; assumption.
+  - intros [Hlow _]. rewrite Hup in Hlow. discriminate.
+Qed.
+
 (* ------------------------------------------------------------------ refutations at program level *)
 
 (* ids.incn:  type UserId = newtype int: def from_underlying(n: int) -> Result[UserId, str]
@@ -251,4 +306,27 @@ Lemma indirect_callee_refuted :
   lower_expr w_st w_alias_value =
     Some (IBlock [ISNode SKAssign [IVar "T"]; ISNode SKExpr [ICall (IVar "mk") [None] [ILit 7]]]) /\
   lower_expr w_st (site "T" (ELit 7)) = Some (checked_ctor "T" "from_underlying" (ILit 7)).
+Proof. repeat split; vm_compute; reflexivity. Qed.
+
+(* what the theorem depends on, made visible: with the hook registered only when the third pass
+   reaches the declaration (lower_program_late — NOT the real code), the forward reference is
+   emitted raw, the backward reference is still rewritten *)
+Definition w_attempts : decl :=
+  DNewtype {| nt_name := "Attempts"; nt_under := TSimple "int";
+              nt_methods := [ {| m_name := "from_underlying"; m_recv := false; m_params := [TSimple "int"];
+                                 m_ret := TNode KGeneric "Result" [(TSimple "Attempts", 1); (TSimple "str", 2)];
+                                 m_body := [] |} ] |}.
+Definition w_sched : decl := DFunction "schedule_retries" [SNode SKAssign [site "Attempts" (EIdent "n")]].
+
+Lemma late_registration_refuted :
+  lower_program [w_sched; w_attempts] =
+    Some [IDFunction "schedule_retries" [ISNode SKAssign [checked_ctor "Attempts" "from_underlying" (IVar "n")]];
+          IDStruct "Attempts" []; IDImpl "Attempts" [("from_underlying", [])]] /\
+  lower_program_late [w_sched; w_attempts] =
+    Some [IDFunction "schedule_retries" [ISNode SKAssign [IStruct "Attempts" [""] [IVar "n"]]];
+          IDStruct "Attempts" []; IDImpl "Attempts" [("from_underlying", [])]] /\
+  lower_program_late [w_attempts; w_sched] = lower_program [w_attempts; w_sched] /\
+  lower_program [w_attempts; w_sched] =
+    Some [IDStruct "Attempts" []; IDImpl "Attempts" [("from_underlying", [])];
+          IDFunction "schedule_retries" [ISNode SKAssign [checked_ctor "Attempts" "from_underlying" (IVar "n")]]].
 Proof. repeat split; vm_compute; reflexivity. Qed.
